@@ -15,8 +15,8 @@ EXTENDS Families, Json, IOUtils
 
 Trace == ndJsonDeserialize(IOEnv.TRACE_FILE)
 
-VARIABLE i
-vars == <<i>>
+VARIABLE pos
+vars == <<pos>>
 
 Has(r, f) == f \in DOMAIN r
 
@@ -37,6 +37,11 @@ Cands(r)  == IF Has(r, "cand") THEN Range(r.cand) ELSE Assignments(r.nvars)
 
 -----------------------------------------------------------------------------
 (* Family dispatch                                                          *)
+
+CompleteGraph(n) == [n |-> n, edges |-> SortedEdgeSeq({t \in (1..n) \X (1..n) : t[1] < t[2]})]
+\* Pitfall: the regular graph the generator drew is read off its first edge-variable group
+Gamma(r) == [n |-> r.par.v,
+             edges |-> SortedEdgeSeq({r.idx[w] : w \in {x \in 1..r.nvars : r.grp[x] = 1}})]
 
 Groups(r) ==
     LET p == r.par IN
@@ -59,6 +64,16 @@ Groups(r) ==
       [] r.fam = "kclique"    -> CliqueGroups(r.graph, p.k)
       [] r.fam = "binclique"  -> BinCliqueGroups(r.graph, p.k)
       [] r.fam = "ramlb"      -> << {<< >>}, CliqueGroups(r.graph, p.k)[1] >>
+      [] r.fam = "op"         -> GOPGroups(CompleteGraph(p.n), p.smart)
+      [] r.fam = "gop"        -> GOPGroups(r.graph, p.smart)
+      [] r.fam = "peb"        -> PebGroups(r.graph)
+      [] r.fam = "stone"      -> StoneGroups(r.graph, CompleteBip(r.graph.n, p.nstones))
+      [] r.fam = "sstone"     -> StoneGroups(r.graph, r.graph2)
+      [] r.fam = "cpls"       -> CPLSGroups(p.a, p.b, p.c)
+      [] r.fam = "pitfall"    -> PitfallGroups(Gamma(r), p.ny, p.nz, p.k)
+      [] r.fam = "ram"        -> RamGroups(p.N)
+      [] r.fam = "vdw"        -> VdwGroups(p.N, p.K)
+      [] r.fam = "ptn"        -> PtnGroups(p.N)
 
 \* Obj(r, V, a): the valuation that assignment a induces on the named
 \* variables (through table V) is an object of the documented kind.
@@ -88,12 +103,48 @@ Obj(r, V, a) ==
       [] r.fam = "subgraph"   -> SubgraphObj(r.graph, r.graph2, p.induced, p.sb, LAMBDA x, y : X2(1, x, y))
       [] r.fam = "kclique"    -> CliqueObj(r.graph, p.k, p.sb, LAMBDA x, y : X2(1, x, y))
       [] r.fam = "binclique"  -> BinCliqueObj(r.graph, p.k, p.sb, LAMBDA x, y : X2(1, x, y))
+      [] r.fam = "ram"        -> RamObj(p.s, p.k, p.N, LAMBDA x, y : X2(1, x, y))
+      [] r.fam = "ptn"        -> PtnObj(p.N, LAMBDA x : X1(1, x))
+      [] r.fam = "vdw"        -> IF Len(p.K) = 2 THEN FALSE   \* two colours: see ObjVariant
+                                 ELSE VdwColObj(p.N, p.K, LAMBDA x, c : X2(1, x, c))
+
+\* Families where the documentation does not fix a polarity convention: the
+\* formula must be pointwise right under one of the listed conventions.
+Variants(r) == IF r.fam = "vdw" /\ Len(r.par.K) = 2 THEN {1, 2} ELSE {0}
+ObjVariant(r, V, a, w) ==
+    IF w = 0 THEN Obj(r, V, a)
+    ELSE LET G == Groups(r)
+             x(i) == a[V[<<Dense(G, 1), i>>]]
+         IN  \* w = 1: "x(i) true" means colour 1; w = 2: it means colour 2
+             VdwColObj(r.par.N, r.par.K, LAMBDA i, c : IF (c = w) THEN x(i) ELSE ~x(i))
 
 \* Families whose documented variables are more than the witness: the witness is
 \* a projection of the assignment.
 Mode(r) == CASE r.fam = "domset" -> "projection"
              [] r.fam = "ramlb"  -> "satonly"
+             [] r.fam \in {"op", "gop", "peb", "stone", "sstone", "cpls", "pitfall"} -> "axioms"
              [] OTHER            -> "pointwise"
+
+\* documented axioms, with group positions turned into the dense group numbers
+DenseLit(G, L) == <<L[1], Dense(G, L[2])>> \o SubSeq(L, 3, Len(L))
+Axioms(r) ==
+    LET p == r.par IN
+    CASE r.fam = "op"      -> GOPAxioms(CompleteGraph(p.n), p.total, p.smart, p.plant, p.knuth)
+      [] r.fam = "gop"     -> GOPAxioms(r.graph, p.total, p.smart, p.plant, p.knuth)
+      [] r.fam = "peb"     -> PebAxioms(r.graph)
+      [] r.fam = "stone"   -> StoneAxioms(r.graph, CompleteBip(r.graph.n, p.nstones))
+      [] r.fam = "sstone"  -> StoneAxioms(r.graph, r.graph2)
+      [] r.fam = "cpls"    -> CPLSAxioms(p.a, p.b, p.c)
+      [] r.fam = "pitfall" -> PitfallAxioms(Gamma(r), p.ny, p.nz, p.k)
+NamedAxioms(r) == LET G == Groups(r) IN {{DenseLit(G, L) : L \in C} : C \in Axioms(r)}
+ImplNamed(r) == {{<<IF l > 0 THEN 1 ELSE -1>> \o Key(r, Abs(l)) : l \in Range(c)} : c \in Range(r.clauses)}
+\* documented satisfiability of the "axioms" families
+ExpectedSat(r) ==
+    CASE r.fam = "op"  -> r.par.plant
+      [] r.fam = "gop" -> r.par.plant /\ Connected(r.graph)
+      [] OTHER         -> FALSE
+\* extra structural promise on what the generator drew
+DrawOK(r) == r.fam = "pitfall" => IsRegular(Gamma(r), r.par.d)
 Proj(r, V, a) ==
     CASE r.fam = "domset" -> {v \in 1..r.graph.n : a[V[<<1, v>>]]}
 Witnesses(r) ==
@@ -111,8 +162,10 @@ MayRefuse(r) ==
     CASE r.fam = "bphp" -> p.m < 1 \/ p.n < 1      \* "size of the domain/range must be > 0"
       [] r.fam = "binclique" -> p.k < 1 \/ r.graph.n < 1
       [] OTHER -> FALSE
+IsDag(D) == \A e \in EdgeSet(D) : e[1] < e[2]
 MustRefuse(r) ==
     CASE r.fam = "evencol" -> ~EvenColDefined(r.graph)   \* documented: all degrees must be even
+      [] r.fam \in {"peb", "stone", "sstone"} -> ~IsDag(r.graph)   \* must be acyclic, topologically sorted
       [] OTHER -> FALSE
 
 Verdict(r) ==
@@ -126,9 +179,20 @@ Verdict(r) ==
     ELSE LET V == VarTable(r)
              C == Cands(r)
          IN  CASE Mode(r) = "pointwise" ->
-                    IF \A a \in C : Sat(r, a) <=> Obj(r, V, a) THEN "ok"
-                    ELSE IF \E a \in C : Sat(r, a) /\ ~Obj(r, V, a) THEN "model_is_not_an_object"
-                    ELSE "object_is_not_a_model"
+                    IF \E w \in Variants(r) : \A a \in C : Sat(r, a) <=> ObjVariant(r, V, a, w) THEN "ok"
+                    ELSE LET w == CHOOSE x \in Variants(r) : TRUE IN
+                         IF \E a \in C : Sat(r, a) /\ ~ObjVariant(r, V, a, w) THEN "model_is_not_an_object"
+                         ELSE "object_is_not_a_model"
+               [] Mode(r) = "axioms" ->
+                    IF r.cls # "CNF" THEN
+                        (IF Has(r, "cand") \/ ((\E a \in C : Sat(r, a)) <=> ExpectedSat(r)) THEN "ok"
+                         ELSE "documented_satisfiability_differs")
+                    ELSE IF ~DrawOK(r) THEN "drawn_graph_not_regular"
+                    ELSE IF NamedAxioms(r) \ ImplNamed(r) # {} THEN "axiom_missing"
+                    ELSE IF ImplNamed(r) \ NamedAxioms(r) # {} THEN "extra_clause"
+                    ELSE IF Has(r, "cand") THEN "ok"
+                    ELSE IF (\E a \in C : Sat(r, a)) <=> ExpectedSat(r) THEN "ok"
+                    ELSE "documented_satisfiability_differs"
                [] Mode(r) = "projection" ->
                     IF Has(r, "cand")
                     THEN (IF \A a \in C : Sat(r, a) => IsWitness(r, Proj(r, V, a)) THEN "ok"
@@ -143,10 +207,10 @@ Verdict(r) ==
                     ELSE IF HasWitness(r) THEN "unsatisfiable_but_witness_exists"
                     ELSE "satisfiable_without_witness"
 
-Init == i = 1
-Next == /\ i <= Len(Trace)
-        /\ PrintT(<<"VERDICT", Trace[i].id, Verdict(Trace[i])>>)
-        /\ i' = i + 1
+Init == pos = 1
+Next == /\ pos <= Len(Trace)
+        /\ PrintT(<<"VERDICT", Trace[pos].id, Verdict(Trace[pos])>>)
+        /\ pos' = pos + 1
 Spec == Init /\ [][Next]_vars
 
 AllJudged == TLCGet("distinct") = Len(Trace) + 1
